@@ -5,6 +5,10 @@
 #include "LookaheadSMTSolver.h"
 #include "ResolutionProof.h"
 
+#ifdef OPENSMT_VERIF_TRACE
+#include <common/VerifTrace.h>
+#endif
+
 namespace opensmt {
 LookaheadSMTSolver::LookaheadSMTSolver(SMTConfig & c, THandler & thandler)
     : SimpSMTSolver(c, thandler),
@@ -86,6 +90,11 @@ lbool LookaheadSMTSolver::laPropagateWrapper() {
             vec<Lit> out_learnt;
             int out_btlevel;
             analyze(cr, out_learnt, out_btlevel);
+#ifdef OPENSMT_VERIF_TRACE
+            if (veriftrace::on()) {
+                veriftrace::emit("{\"e\":\"cl\",\"kind\":\"learnt\",\"site\":\"lookahead\",\"lits\":" + veriftrace::litsToJson(out_learnt) + "}");
+            }
+#endif
             // Backtracking back to the second best decision level in the clause
             cancelUntil(out_btlevel);
             assert(value(out_learnt[0]) == l_Undef);
